@@ -92,6 +92,9 @@ def build():
     cmd = in_tuples(func(an, "_analyze_command"), "command")
     out.append(coq_strs("TEST_COMMANDS", pick(cmd, ["[", "test"], "test commands"),
                         "_analyze_command: conditional test commands"))
+    swr = module_assign(an, "_SUBCOMMAND_WORD")
+    if not (isinstance(swr, ast.Call) and swr.args and isinstance(swr.args[0], ast.Constant) and swr.args[0].value == r"[A-Za-z][A-Za-z0-9_:-]*"):
+        raise TieBroken("_SUBCOMMAND_WORD: the regular expression changed")
     hlp = in_tuples(func(an, "_is_version_or_help"), "help")
     out.append(coq_strs("HELP_WORDS", pick(hlp, ["help", "version"], "help words"), "_is_version_or_help: tokens[1] of a 2-word command"))
     out.append(coq_strs("HELP_FLAGS2", pick(hlp, ["--version", "--help", "-h"], "help flags"), "_is_version_or_help: tokens[1] of a 2-word command"))
